@@ -148,6 +148,9 @@ v("C11", "refusal-sets-failure", LIB, "\t\tfprintf(stderr, \"%s\", error_str);\n
   "\t\tfprintf(stderr, \"%s\", error_str);\n\t\thdf5_data_object->has_failure = 1;\n\t\treturn(-1);\n\t}\n\n\t/* Create a new file. If file exists will fail. */", rules=["C11.R3"])
 
 # ---- C07 -----------------------------------------------------------------------------------------------------
+v("C07", "nan-not-swapped-again", LIB, "\t\tdigital_rf_reverse_bytes(&double_fill, sizeof(double));\n", "", rules=["C07.R1"])
+v("C07", "nan-swap-unconditional", LIB, "\tif (endian_flip)\n\t{\n\t\tdigital_rf_reverse_bytes(&float_fill", "\tif (1)\n\t{\n\t\tdigital_rf_reverse_bytes(&float_fill", rules=["C07.R1"])
+v("C07", "reverse-helper-off-by-one", LIB, "bytes[i] = bytes[num_bytes-1-i];\n\t\tbytes[num_bytes-1-i] = tmp;", "bytes[i] = bytes[num_bytes-i];\n\t\tbytes[num_bytes-i] = tmp;", rules=["C07.R1"])
 v("C07", "swapped-min-wrong", LIB, "int16_t minShort[2] = {INT16_MIN, 128};", "int16_t minShort[2] = {INT16_MIN, 127};", rules=["C07.R1"])
 v("C07", "case4-uses-short", LIB, "\t\t\t\t\tcase 4:\n\t\t\t\t\t\tH5Pset_fill_value(hdf5_data_object->dataset_prop, hdf5_data_object->dtype_id, &minInt[endian_flip]);",
   "\t\t\t\t\tcase 4:\n\t\t\t\t\t\tH5Pset_fill_value(hdf5_data_object->dataset_prop, hdf5_data_object->dtype_id, &minShort[endian_flip]);", rules=["C07.R1"])
